@@ -239,6 +239,15 @@ func (p *c07) inputs(tier string, seed int64, idx int) []string {
 				ins = append(ins, "module m { namespace urn:m; prefix m; description "+tok+"; leaf l { type string; } }", "module m { description "+tok, "module m { description "+tok+"; leaf")
 			}
 		}
+		// statements of 70 to 100 bytes that end in a character of two, three or four bytes, with what follows them
+		// missing or wrong (messages quote the statement they are about)
+		for n := 60; n <= 95; n++ {
+			for _, ch := range []string{"é", "€", "😀", "x"} {
+				arg := strings.Repeat("x", n) + ch
+				ins = append(ins, "module m { reference "+arg+"\n}", "module m { must \""+arg+"\" { error-message e;", "module m { must \""+arg+"\" { error-message", "module m { description \""+arg+"\" description",
+					"module m { container "+arg+" { leaf", "module m { x:e "+arg+" { y }")
+			}
+		}
 		return append(ins, c07AfterLastToken()...)
 	}
 	idx--
